@@ -216,6 +216,18 @@ static void send_rule(unsigned rule, uint64_t me, double now, unsigned type, con
 				vm_env->schedule(me, now + 1, type, NULL, 0);
 			break;
 		}
+		case VR_TIE_BIG:
+			/* two events with the same timestamp, type and 40-byte size whose payloads share the first 32 bytes and differ
+			 * only in the continuation of the payload (beyond the inline part of the message) */
+			if(now + 1 <= VM.horizon) {
+				for(unsigned i = 0; i < 40; ++i)
+					big[i] = (unsigned char)(h >> ((i % 8) * 8)) ^ (unsigned char)(i * 7);
+				vm_env->schedule(nb, now + 1, type, big, 40);
+				big[33] ^= 0x5a;
+				big[39] += 1;
+				vm_env->schedule(nb, now + 1, type, big, 40);
+			}
+			break;
 		case VR_FAN2:
 			if(now + 1 <= VM.horizon) {
 				vm_env->schedule(nb, now + 1, (type + 1) % VM_NTYPES, &h, 8);
